@@ -31,7 +31,7 @@ Theorem C13_remove : forall st i j, handle true st i (RRemove (QOk j))
      mkH (snd (remove (h_store st) j)) (h_cas st)).
 Proof. exact faithful_remove. Qed.
 Theorem C13_import : forall st i f, handle true st i (RImport (Some f))
-  = (match fst (insert_frame (h_store st) f) with Ok _ => HResp 200 (BFrame f) | Err _ => HResp 500 BText end,
+  = (match fst (insert_frame (h_store st) f) with Ok _ => HResp 200 (BFrame f) | Err _ => HResp 400 BText end,
      mkH (snd (insert_frame (h_store st) f)) (h_cas st)).
 Proof. exact faithful_import. Qed.
 Theorem C13_cat : forall st i sse l lim c, handle true st i (RCat sse (Some (l, lim, c)))
@@ -53,9 +53,24 @@ Theorem C13_syntax_errors_400 : forall st i r, syntax_malformed r ->
   exists st', handle true st i r = (HResp 400 BText, st') /\ h_store st' = h_store st.
 Proof. exact client_errors_4xx_partial. Qed.
 Print Assumptions C13_syntax_errors_400.
-(* ... and REFUTED for store validation errors (known finding validation-errors-are-500) *)
-Check validation_error_is_500.
-Check unregistered_ctx_is_500.
+(* ... and for a frame the store refuses for what it is (F13b, fixed in /repo: the pinned code said 500) *)
+Theorem C13_unregistered_context_400 : forall st i topic cx t m body bh,
+  t <> TBad -> (m = MAbsent \/ exists j, m = MOk j) ->
+  is_ctx_topic topic = false -> mem cx (s_ctxs (h_store st)) = false ->
+  fst (handle true st i (RAppend topic (QOk cx) t m body bh)) = HResp 400 BText.
+Proof. exact unregistered_ctx_is_400. Qed.
+(* a 400 is given for nothing else, and the only 5xx left is a remove the store itself fails *)
+Theorem C13_400_only_client_errors : forall st i r b st',
+  handle true st i r = (HResp 400 b, st') -> syntax_malformed r \/ store_refuses st i r.
+Proof. exact status_400_only_client_error. Qed.
+Theorem C13_5xx_only_failed_remove : forall st i r status b st',
+  handle true st i r = (HResp status b, st') -> 500 <= status ->
+  exists j e, r = RRemove (QOk j) /\ fst (remove (h_store st) j) = Err e.
+Proof. exact status_5xx_only_remove. Qed.
+Print Assumptions C13_unregistered_context_400.
+Print Assumptions C13_400_only_client_errors.
+Print Assumptions C13_5xx_only_failed_remove.
+Check pinned_validation_error_is_500.
 
 (* regression witnesses: the pinned handlers dropped the connection (fixed in /repo da523f3, 4e3122e) *)
 Check pinned_not_total.
